@@ -72,4 +72,8 @@ class AtomTheory(SpecTheory):
         comb = {"__and__": lambda x, y: z3.And(x, y), "__or__": lambda x, y: z3.Or(x, y), "__sub__": lambda x, y: z3.And(x, z3.Not(y))}[opname]
         ex.assume(z3.And(dr.n >= 0, distinct(dr)))
         ex.assume(z3.ForAll([s], mem(dr, s) == comb(mem(da, s), mb(s))))
+        # instances of the same fact at the first elements of the left operand (so that size arguments find their witnesses)
+        for k in (0, 1):
+            e = z3.Select(da.arr, k)
+            ex.assume(mem(dr, e) == comb(mem(da, e), mb(e)))
         return r
